@@ -739,6 +739,7 @@ SITES = [
     ("src/admin.rs", r"&query\[\.\.len - 5\]", 1, "admin query slice"),
     ("src/client.rs", r"if !server\.in_copy_mode\(\) \{\s*self\.buffer\.clear\(\);", 1, "CopyDone/CopyFail outside COPY dropped"),
     ("src/client.rs", r"if server\.in_copy_mode\(\) \{\s*continue;\s*\}", 1, "Sync dropped while in COPY"),
+    ("src/client.rs", r"server\.mark_bad\(\"query while the server is in COPY mode\"\);", 1, "Query during COPY ends the session, server discarded"),
     ("src/pool.rs", r"self\.address\.role != Role::Mirror && conn\.is_unclean\(\)", 1, "has_broken closes unclean connections"),
 ]
 
@@ -1105,6 +1106,27 @@ def cross_client_probes(run, wire):
     return len(pw) + len(sp)
 
 
+def copy_abort_probe(run, wire):
+    """COPY FROM STDIN (simple protocol, outside a transaction) that the BACKEND aborts at the 2nd CopyData (ErrorResponse +
+    ReadyForQuery sit unread in the pooler's server socket: it does not read the server while the client streams), then a Query
+    instead of CopyDone/CopyFail.  Needs the mock directive copy_abort_at.  Before 016496c (F37) the canary was answered with the
+    sender's row; kept as a regression input."""
+    big = [b"1\tok\n" + b"x" * 5000, b"bad\trow\n" + b"y" * 5000]
+    steps = [{"op": "connect", "c": "a", "params": {"user": "u", "database": "db"}, "password": "pw"},
+             {"op": "send", "c": "a", "msgs": [{"t": "Q", "sql": "COPY t FROM STDIN /*mock: copy_abort_at=2*/"}]}, {"op": "recv", "c": "a", "until": "G", "timeout_ms": 3000},
+             {"op": "send", "c": "a", "msgs": [{"raw": b"".join(dm(d) for d in big).hex()}]}, {"op": "sleep", "ms": 60},
+             {"op": "send", "c": "a", "msgs": [{"raw": Qm(b"SELECT 'late'").hex()}]}, {"op": "recv", "c": "a", "until": "Z", "timeout_ms": 1500, "label": "hostile"},
+             {"op": "half_close", "c": "a"}, {"op": "recv", "c": "a", "until": "", "count": 0, "timeout_ms": 3000, "label": "tail"}, {"op": "close", "c": "a"},
+             {"op": "wait_tasks", "n": 1, "timeout_ms": 3000}]
+    c = dict(variant="plain", label="copy_aborted_by_backend_then_query")
+    scn = {"backends": [{"name": "b0"}], "toml": make_toml(VARIANTS["plain"]), "hex": False, "steps": steps + canary(3000, False, 2)}
+    r = run_confirmed(wire, [scn], [c])[0]
+    probs = monitors(r, c)
+    run.cov["copy_abort_probe"] = {"monitors": probs[:2]}
+    if probs:
+        viol(run, probs, "COPY aborted by the backend at the 2nd CopyData, then Query instead of CopyDone: %s" % probs[0], {"input": {"steps": steps}, "monitors": probs})
+
+
 def check(run):
     quick = run.tier == "quick"
     rng = run.rng
@@ -1160,6 +1182,7 @@ def check(run):
     n_nest = nesting_probes(run, wire)
     stats["evaluations"] += n_nest + cross_client_probes(run, wire)
     special_scenarios(run, wire, quick)
+    copy_abort_probe(run, wire)      # regression input of F37 (repaired in 016496c)
 
     # ---- decide
     for c, probs_, ow in stats["monitor_fail"][:6]:
